@@ -176,10 +176,16 @@ GValid(gr, rs, order) ==
   /\ \A i, j \in DOMAIN order : i # j => order[i] # order[j]
   /\ SeqSet(order) = GReach(gr, SeqSet(rs))
   /\ \A i \in DOMAIN order : gr[order[i]] \subseteq {order[j] : j \in 1..(i - 1)}
+\* a prefix of a behaviour of the emit machine (NeverEarly, inside the closure, each once)
+GPrefix(gr, rs, order) ==
+  /\ \A i, j \in DOMAIN order : i # j => order[i] # order[j]
+  /\ SeqSet(order) \subseteq GReach(gr, SeqSet(rs))
+  /\ \A i \in DOMAIN order : gr[order[i]] \subseteq {order[j] : j \in 1..(i - 1)}
 TraceCheck ==
   \A i \in DOMAIN TraceRec :
     LET r == TraceRec[i] IN
     \/ CASE r.kind = "order" -> r.ok /\ GValid(RecGraph(r), r.roots, r.order)
+         [] r.kind = "order-prefix" -> GPrefix(RecGraph(r), r.roots, r.order)   \* a run that stopped part-way
          [] r.kind = "dangling" -> ~r.ok                 \* unknown dependency: an error, never dropped
          [] r.kind = "path" -> r.result = DeclNormalize(r.parent, r.segs)
          [] OTHER -> FALSE
